@@ -12,6 +12,7 @@ oracle:         the observed run (exit status, `pdsh -L` stanzas, init markers, 
                 order must give the same observation
 """
 import itertools
+import json
 import os
 import re
 
@@ -330,12 +331,20 @@ def letters_of(eng, c):
 
 
 def order_dep_signature(eng, c, model_env_line=None):
-    """which of the known order-dependence patterns the directory of this case contains"""
+    """names the features of this directory that can CAUSE an order dependence in the code under test
+    (the probed form of _mod_register/_cmp_f decides which features still count):
+      dup-pers   a module of another personality with the same (type,name) as a loadable module and a higher
+                 priority -- only while _mod_register tests the personality after the eviction
+      dup-equal  two loadable modules with the same (type,name) and the same, group-maximal priority
+      tie        two loadable modules of different (type,name) with equal name and priority, both maximal
+                 in their own group -- both only while ties are not broken by type / file name
+    anything else is `order-dep:other` and never matches a finding"""
     pool = eng.pool
     if not eng.uses_env(c):
         return "order-dep:other"
     sm = c["statmap"]
-    owner = PDSH_OWNER if eng.exe in sm and sm[eng.exe] != "!" else 0
+    ost = file_stat(real_stat(eng.exe), sm.get(eng.exe))
+    owner = None if ost == "!" else int(ost.split(":")[0])
     mods = []
     for f in c["files"]:
         d = pool.by_file.get(f)
@@ -348,17 +357,25 @@ def order_dep_signature(eng, c, model_env_line=None):
         if (mode & 0o170000) != 0o100000 or (mode & 0o002) or uid not in (0, c["uid"], owner):
             continue
         mods.append(d)
+    prio = lambda d: d.effective_prio(eng.default_prio)
+    ok = [d for d in mods if d.pers & c["pers"]]
+    foreign = [d for d in mods if not (d.pers & c["pers"])]
+    top = {}
+    for d in ok:
+        k = (d.type, d.name)
+        top[k] = max(top.get(k, prio(d)), prio(d))
+    best = [d for d in ok if prio(d) == top[(d.type, d.name)]]
     pats = set()
-    for a, b in itertools.combinations(mods, 2):
-        same_key = (a.type, a.name) == (b.type, b.name)
-        pa, pb = a.effective_prio(eng.default_prio), b.effective_prio(eng.default_prio)
-        a_ok, b_ok = bool(a.pers & c["pers"]), bool(b.pers & c["pers"])
-        if same_key and (not a_ok or not b_ok):
-            pats.add("dup-pers")
-        elif same_key and pa == pb:
-            pats.add("dup-equal")
-        elif not same_key and a.name == b.name and pa == pb and a_ok and b_ok:
-            pats.add("tie")
+    if "pers" not in eng.repaired:
+        for f in foreign:
+            if any((f.type, f.name) == (d.type, d.name) and prio(f) > prio(d) for d in ok):
+                pats.add("dup-pers")
+    if "tie" not in eng.repaired:
+        for a, b in itertools.combinations(best, 2):
+            if (a.type, a.name) == (b.type, b.name):
+                pats.add("dup-equal")
+            elif a.name == b.name and prio(a) == prio(b):
+                pats.add("tie")
     return "order-dep:" + ("+".join(sorted(pats)) if pats else "other")
 
 
@@ -403,18 +420,37 @@ def run(ctx):
         # handling: the loadable lower-priority module survives whatever the order)
         probe = planned_cases(eng)[2]
         eng.margs = ["model"]
+        eng.repaired = set()
         if ("m25.so", True) in eng.observe(eng.run(probe))["listed"]:
             eng.margs = ["model", "persfirst"]
+            eng.repaired.add("pers")
             ctx.log("_mod_register tests the personality first (F17-PERS repaired): model runs as `persfirst`")
+        # F17-TIE repaired (findings/C17.patch)?  misc/tie + rcmd/tie and the two equal-priority misc/alpha give
+        # the same list in both enumeration orders
+        def same_both_orders(files):
+            pc = dict(planned_cases(eng)[0], files=list(files))
+            a = eng.observe(eng.run(pc))["listed"]
+            b = eng.observe(eng.run(pc, order=list(reversed(files))))["listed"]
+            return a == b
+        if same_both_orders(["m26.so", "r05.so"]) and same_both_orders(["m01.so", "m19.so"]):
+            eng.margs.append("tiefix")
+            eng.repaired.add("tie")
+            ctx.log("ties are broken by type / file name (F17-TIE repaired): model runs as `tiefix`")
         dist["variant"] = " ".join(eng.margs)
-        cases = [(c, "planned") for c in planned_cases(eng)]
-        n = 2200 if ctx.quick() else 20000
-        cases += [(gen_case(rng, eng), "random") for _ in range(n)]
-        if not ctx.quick():
-            cases += [(c, "matrix") for c in perm_matrix(eng)]
-        check_cases(ctx, eng, cases, cov, dist, distinct, rng)
-        if not ctx.quick():
-            exhaustive_orders(ctx, eng, cov, dist, rng)
+        if getattr(ctx, "replay", None):
+            cases = replay_cases(ctx, eng)
+            cov["rule"] = "replay of %s: exactly the recorded case(s), both recorded enumeration orders, every " \
+                          "option character of the directory" % ctx.replay
+            check_cases(ctx, eng, cases, cov, dist, distinct, rng)
+        else:
+            cases = [(c, "planned") for c in planned_cases(eng)]
+            n = 2200 if ctx.quick() else 20000
+            cases += [(gen_case(rng, eng), "random") for _ in range(n)]
+            if not ctx.quick():
+                cases += [(c, "matrix") for c in perm_matrix(eng)]
+            check_cases(ctx, eng, cases, cov, dist, distinct, rng)
+            if not ctx.quick():
+                exhaustive_orders(ctx, eng, cov, dist, rng)
     cov["distinct_nontrivial"] = len(distinct)
     cov["distribution"] = dist
     return ctx.finish(
@@ -431,6 +467,50 @@ def run(ctx):
                       "Gen/Modopt.lean regenerated from /repo (GEN_ARGS, DSH_ARGS, PCP_ARGS, S_I* bits, default priority)",
                       "harness/preload_shim.c, harness/modtmpl.c, vlib/preload.py, checks/c17.py, gcc, glibc getopt/dlopen"],
         checker_cmd="lake build PdshVerif.Props.C17 && #print axioms on every theorem of Props/C17.lean")
+
+
+def replay_cases(ctx, eng):
+    """cases of a replay file written by ctx.finish (kind `input`: the offender's case; kind
+    `theorem-or-correspondence`: the cases embedded in the disagreement texts, as far as they are complete).
+    Paths of the recorded run's scratch directory are mapped to this run's."""
+    obj = json.load(open(ctx.replay))
+    items = []
+    if obj.get("kind") == "input":
+        items.append(obj["case"])
+    else:
+        for b in obj.get("broken", []):
+            txt = b[2] if len(b) > 2 else ""
+            if ":: case=" in txt:
+                try:
+                    items.append(json.loads(txt.split(":: case=", 1)[1]))
+                except ValueError:
+                    ctx.log("replay: a recorded case is truncated in %s, skipped" % ctx.replay)
+    out = []
+    for it in items:
+        if "case" not in it:
+            continue
+        c = {k: v for k, v in it["case"].items() if k != "origin"}
+        old = None
+        for k in c.get("statmap", {}):
+            m = re.search(r"^(.*?/pdshverif-C17-[^/]+)", k)
+            if m:
+                old = m.group(1)
+        if old:
+            c["statmap"] = {k.replace(old, ctx.scratch): v for k, v in c["statmap"].items()}
+        key = "files" if eng.uses_env(c) else "bfiles"
+        if it.get("order1") and it.get("order2"):
+            c[key] = list(it["order1"])
+            c["_order2"] = list(it["order2"])
+        elif it.get("order"):
+            c["_order2"] = list(c[key])
+            c[key] = list(it["order"])
+        if key == "files":
+            c["bfiles"] = list(eng.builtin_files)
+        c["_all_letters"] = True
+        out.append((c, "replay"))
+    if not out:
+        ctx.broken.append(("C-BROKEN", "replay", "no replayable case in " + str(ctx.replay)))
+    return out
 
 
 def nontrivial_key(eng, c):
@@ -464,7 +544,9 @@ def check_cases(ctx, eng, cases, cov, dist, distinct, rng):
         dist["runs"] += 1
         # second enumeration order of the same directory
         order2 = list(files)
-        if len(order2) > 1:
+        if c.get("_order2"):
+            order2 = list(c["_order2"])          # replay: exactly the recorded second order
+        elif len(order2) > 1:
             for _ in range(4):
                 rng.shuffle(order2)
                 if order2 != files:
@@ -476,7 +558,7 @@ def check_cases(ctx, eng, cases, cov, dist, distinct, rng):
         # option characters
         uses = {}
         ls = letters_of(eng, c) if env_dir and not o1["fatal"] else []
-        for ch in rng.sample(ls, min(3, len(ls))):
+        for ch in (ls if c.get("_all_letters") else rng.sample(ls, min(3, len(ls)))):
             # `-c -L`: an option that takes an argument swallows "-L" (glibc getopt keeps the POSIX
             # ordering of the early pass, so nothing may stand between the option and -L)
             ru = eng.run(c, extra=["-" + ch])
@@ -523,7 +605,7 @@ def check_cases(ctx, eng, cases, cov, dist, distinct, rng):
         if any(not (k.startswith(eng.pool.dir + "/") or k.startswith(eng.builtin + "/")) and k != eng.exe
                for k in c["statmap"]):
             dist["insecure_path"] += 1
-        case = dict(c, origin=origin)
+        case = dict({k: v for k, v in c.items() if not k.startswith("_")}, origin=origin)
         if len(cov["samples"]) < 4 and key is not None and origin == "random" and len(c["files"]) <= 5:
             cov["samples"].append({"case": case, "observed": o1})
         if o1["rc"] not in (0, 1):
